@@ -1564,7 +1564,15 @@ class Interp:
             plan = self._decorator_plan(f)
             if plan:
                 return self._call_decorated(f, plan, args, kwargs, node, self_obj)
-        # a function proved to be an exact label enumerator is read as the anchor every domain models
+        # the label enumerator asked for the sizes as well (`return_counts=True`, verified by R09.6 to hand back the
+        # same labels plus one count per label): the labels as every domain models them, and a size per label
+        if self_obj is None and f.name == "_unique_without_zeros" and len(f.call_params) == 2 and "count" in f.call_params[1].name.lower():
+            flag = kwargs.get(f.call_params[1].name, args[1] if len(args) > 1 else False)
+            if flag is True and args:
+                labels = self.call_func(f, [args[0]], {}, node)
+                if isinstance(labels, (list, tuple)):
+                    return (labels, type(labels)(Sym(f"size_of[{i}]") for i in range(len(labels))))
+                return (labels, Unknown("sizes of the labels"))
         ve = self.prog.__dict__.get("_verified_enum")
         if ve is None and self_obj is None and len(args) + len(kwargs) == 1:
             self.prog.__dict__["_verified_enum"] = {}
@@ -1665,6 +1673,8 @@ class Interp:
                     return self.call_func(m, [], {}, node, self_obj=a)
                 if isinstance(a, EnumSym):
                     return f"{a.cls.name}.{a.member}" if name == "str" else Sym(f"repr:{a.cls.name}.{a.member}")
+            if name == "slice" and 1 <= len(args) <= 3 and not kwargs and all(a is None or (isinstance(a, int) and not isinstance(a, bool)) for a in args):
+                return slice(*args)
             if name == "len":
                 a = args[0]
                 if isinstance(a, _DictView):
